@@ -202,7 +202,7 @@ class Scheduler:
                 self.prio[t.index] = self.rng.random()
         return max(en, key=lambda t: self.prio[t.index])
 
-    def preemption_point(self, st: TState, code: types.CodeType, line: int) -> None:
+    def preemption_point(self, st: TState, code: types.CodeType, line: int, force: bool = False) -> None:
         if st is not self.current or st.in_critical or self.aborted:
             if self.aborted == "steps":
                 raise StepLimit()
@@ -214,7 +214,7 @@ class Scheduler:
         en = self._enabled()
         if len(en) < 2:
             return
-        if self.filter is not None and not self.filter(code):
+        if self.filter is not None and not force and not self.filter(code):
             if self.policy[0] == "replay":
                 return
         idx = self.points
@@ -344,6 +344,9 @@ class SchedLifoQueue:
     def put(self, item: typing.Any, block: bool = True, timeout: float | None = None) -> None:
         st = current_state()
         if st is not None:
+            # the caller has already loaded the queue object (`self.pool`) and is now inside the call: a switch here
+            # is the window between that attribute load and the queue operation taking effect
+            st.sched.preemption_point(st, SchedLifoQueue.put.__code__, -1, force=True)
             st.in_critical += 1
         try:
             if 0 < self.maxsize <= len(self.queue):
@@ -366,6 +369,7 @@ class SchedLifoQueue:
     def get(self, block: bool = True, timeout: float | None = None) -> typing.Any:
         st = current_state()
         if st is not None:
+            st.sched.preemption_point(st, SchedLifoQueue.get.__code__, -1, force=True)
             st.in_critical += 1
         try:
             while not self.queue:
